@@ -271,9 +271,12 @@ func cmdConcFree(args []string) {
 				hs[i] = append(h, Action{A: "Render"})
 			}
 		}
+		// every third job renders with NoFormat; all jobs write through slow writers (the bytes handed to Write must
+		// stay valid while other goroutines render)
+		nf := func(i int) bool { return i%3 == 1 }
 		solo := make([][]byte, len(hs))
 		for i, h := range hs {
-			solo[i] = RunHistory(h, false)
+			solo[i] = RunHistoryW(h, nf(i), true)
 		}
 		got := make([][]byte, len(hs))
 		var wg sync.WaitGroup
@@ -281,7 +284,7 @@ func cmdConcFree(args []string) {
 			wg.Add(1)
 			go func(i int) {
 				defer wg.Done()
-				got[i] = RunHistory(hs[i], false)
+				got[i] = RunHistoryW(hs[i], nf(i), true)
 			}(i)
 		}
 		wg.Wait()
